@@ -32,7 +32,7 @@ def run(rep):
     # tag names come from the tag-line splitter
     lr.rule_tags(rep, "C03.tagline")
     # free text, names and cell texts are exact: only line terminators are cut from matched text; cells are split as documented
-    mr.rule_sink(rep, "C03.sinkcol", "C03.crlf", want=("crlf",))
+    mr.rule_sink(rep, "C03.sinkcol", "C03.crlf", want=("crlf", "fields"))
     lr.rule_split(rep, "C03.split", "C03.splitcol")
     lr.rule_split_init(rep, "C03.cells")
     # no hidden state: what the property promises for one use must hold for every later use as well
